@@ -56,11 +56,18 @@ type Case struct {
 	Big         bool
 	Existing    int
 	Random      []byte
+	// Global: bit mask of global command-line flags given before the
+	// sub-command (1 -v, 2 --cpuprofile, 4 --memprofile); none of them may
+	// change the outcome.
+	Global int
+	// Bystander: a valid index of other content waits under a name derived
+	// from the output name (0 none, 1 <out>.tmp, 2 <out>~, 3 <out>.new, 4 .<base>.tmp)
+	Bystander int
 }
 
 func (c *Case) Summary() string {
 	var b strings.Builder
-	fmt.Fprintf(&b, "mode=%s csv=%s existing-output=%s header=%+q records[%d]", map[bool]string{true: "--big", false: "normal"}[c.Big], malName[c.Malformed], existName[c.Existing], c.Header, len(c.Records))
+	fmt.Fprintf(&b, "mode=%s global-flags=%03b bystander=%d csv=%s existing-output=%s header=%+q records[%d]", map[bool]string{true: "--big", false: "normal"}[c.Big], c.Global, c.Bystander, malName[c.Malformed], existName[c.Existing], c.Header, len(c.Records))
 	for i, r := range c.Records {
 		if i >= 5 {
 			b.WriteString(" …")
@@ -175,8 +182,34 @@ func oracle(c *Case) error {
 			return fmt.Errorf("INFRA: %v", err)
 		}
 	}
+	var bystander string
+	switch c.Bystander {
+	case 1:
+		bystander = out + ".tmp"
+	case 2:
+		bystander = out + "~"
+	case 3:
+		bystander = out + ".new"
+	case 4:
+		bystander = filepath.Join(dir, ".out.updog.tmp")
+	}
+	if bystander != "" {
+		if _, err := fix.BuildAt(bystander, []model.Row{{"stale": "value"}, {"stale": "other", "left": "over"}}, fix.WMemFile); err != nil {
+			return fmt.Errorf("INFRA: %v", err)
+		}
+	}
 	before := digest(out)
-	args := []string{"create", "-o", out}
+	var args []string
+	if c.Global&1 != 0 {
+		args = append(args, "-v")
+	}
+	if c.Global&2 != 0 {
+		args = append(args, "--cpuprofile", filepath.Join(dir, "cpu.prof"))
+	}
+	if c.Global&4 != 0 {
+		args = append(args, "--memprofile", filepath.Join(dir, "mem.prof"))
+	}
+	args = append(args, "create", "-o", out)
 	if c.Big {
 		args = append(args, "-b")
 	}
@@ -306,6 +339,12 @@ var fieldPool = []string{"", "x", "1", "a,b", "say \"hi\"", "\"", "\"\"", "line1
 
 func drawCase(t *rapid.T, maxRecords int) *Case {
 	c := &Case{Big: rapid.Bool().Draw(t, "big"), AlwaysQuote: rapid.Bool().Draw(t, "quoteall"), CRLF: rapid.Bool().Draw(t, "crlf"), FinalNL: rapid.Bool().Draw(t, "finalnl")}
+	if rapid.IntRange(0, 3).Draw(t, "globalflags") == 0 {
+		c.Global = rapid.IntRange(1, 7).Draw(t, "global")
+	}
+	if rapid.IntRange(0, 5).Draw(t, "bystander?") == 0 {
+		c.Bystander = rapid.IntRange(1, 4).Draw(t, "bystander")
+	}
 	ncols := rapid.IntRange(1, 5).Draw(t, "ncols")
 	for i := 0; i < ncols; i++ {
 		// distinct after normalisation by construction: a unique two-letter
